@@ -377,6 +377,7 @@ type HistCfg struct {
 	Phases      []Phase
 	DescendPct  int  // probability (percent) to operate on a nested container instead of the root
 	PopOnChild  bool // allow bulk pop through a handle on an attached child
+	IterHandles bool // meta steps may re-acquire the handles of a container's children by mutable iteration
 	InvalidPct  int  // percent of steps that are deliberately invalid requests
 	CommitEvery int  // 0 = never (the caller commits)
 	Relaxed     bool
@@ -521,6 +522,9 @@ func (w *World) Step(root *Node, ph Phase, cfg *HistCfg) error {
 			}
 			return w.OpArrayGet(n, w.pickIndex(n, false, w.bounds))
 		case roll < ph.Insert+ph.Set+ph.Remove+ph.Read+ph.Meta:
+			if cfg.IterHandles && r.Intn(3) == 0 {
+				return w.RefreshChildrenByIteration(n)
+			}
 			if r.Intn(2) == 0 {
 				return w.OpArraySetType(n, w.newTI(false))
 			}
@@ -579,6 +583,9 @@ func (w *World) Step(root *Node, ph Phase, cfg *HistCfg) error {
 		}
 		return w.OpMapGet(n, k)
 	case roll < ph.Insert+ph.Set+ph.Remove+ph.Read+ph.Meta:
+		if cfg.IterHandles && r.Intn(3) == 0 {
+			return w.RefreshChildrenByIteration(n)
+		}
 		if r.Intn(2) == 0 {
 			// keep compositeness stable so that the composite bucket of a case is fixed at creation
 			ti := w.newTI(false)
